@@ -199,6 +199,8 @@ func runWorkload(t *testing.T, c wcfg, overlap *[lenKinds]int64) string {
 	var ready, goFlag int32
 	var wg sync.WaitGroup
 	var extraSeq int32
+	var annMu sync.Mutex
+	announced := map[string]int{} // (name, address) -> weight of the latest announcement (harness bookkeeping for the evidence only)
 	for g := 0; g < c.G; g++ {
 		wg.Add(1)
 		go func(g int) {
@@ -231,8 +233,25 @@ func runWorkload(t *testing.T, c wcfg, overlap *[lenKinds]int64) string {
 						{K: "X-Verif-Case", V: id}, {K: "Accept-Encoding", V: "gzip"}, {K: "X-Forwarded-For", V: clientOf(g, rng.Intn(4))}}}, 5*time.Second)
 					l.ForgetAll(id)
 				case "add":
-					n := atomic.AddInt32(&extraSeq, 1)
-					adminCall("POST", "/v1/backends/add", map[string]any{"name": fmt.Sprintf("x%d", n%3), "address": l.Backends[int(n)%2].URL(), "weight": 1 + int(n)%3})
+					// name, address and weight are drawn independently of each other: the same (name, address) is announced
+					// again and again - with the weight it had, with another one, under another address -, and one add in
+					// three re-announces a backend of the configuration file under its own name and address (what a
+					// registry sync does), so that every add path runs next to listings, picks, removals and reads
+					atomic.AddInt32(&extraSeq, 1)
+					name, ai := fmt.Sprintf("x%d", rng.Intn(3)), rng.Intn(2)
+					if rng.Intn(3) == 0 {
+						ai = rng.Intn(3)
+						name = lab.BackendName(ai)
+					}
+					w := addWeights[rng.Intn(len(addWeights))]
+					key := name + "@" + fmt.Sprint(ai)
+					annMu.Lock()
+					if prev, seen := announced[key]; seen && prev != w {
+						atomic.AddInt64(&reannounced, 1)
+					}
+					announced[key] = w
+					annMu.Unlock()
+					adminCall("POST", "/v1/backends/add", map[string]any{"name": name, "address": l.Backends[ai].URL(), "weight": w})
 				case "remove":
 					adminCall("POST", "/v1/backends/remove", map[string]any{"name": fmt.Sprintf("x%d", rng.Intn(3))})
 				case "strategy":
@@ -353,9 +372,15 @@ func runWorkload(t *testing.T, c wcfg, overlap *[lenKinds]int64) string {
 
 const lenKinds = 20 // len(opKinds)
 
+// addWeights: weights an admin add carries (0 = field left at its zero value, Helios defaults it to 1).
+var addWeights = []int{0, 1, 2, 3, 5, 10}
+
+// reannounced counts adds that named a (name, address) announced before in the same workload with another weight.
+var reannounced int64
+
 func TestC12ConcurrentWorkloads(t *testing.T) {
 	sub := lab.Sub("concurrent-workloads", "all 5 strategies x 2^6 on/off combinations of breaker, limiter, passive checks, active checks, websocket pool, plugin chain (logging, request-id, size_limit, gzip, headers + request/trace IDs) are cycled (320 configurations); for each a workload of 8-64 goroutines x 6-20 operations over "+
-		"{request to good/5xx/aborting/unreachable backend over real sockets, admin add/remove/set_strategy/list, /metrics, /health and admin /v1/metrics reads through a recorder, the same reads (/metrics, /health, /v1/metrics, /v1/backends) by a client that is gone - the ResponseWriter's Write fails with EPIPE after 0/1/16/200/1500 body bytes -, MarkBackendUnhealthy, IsBackendHealthy, pool put/get/close/stats, Stop} with scripts derived from VERIF_SEED; one configuration in eight (with breaker, passive checks or limiter on; breaker interval 1 s there) continues after a quiet period of 1.15 s - longer than every configured interval - with a second wave of requests, metrics reads and listings; "+
+		"{request to good/5xx/aborting/unreachable backend over real sockets, admin add (name, address and weight drawn independently from 3 extra names + the 3 configured backends x their addresses x weights {unset,1,2,3,5,10}: first adds, repeated announcements with the same or another weight, same name under another address)/remove/set_strategy/list, /metrics, /health and admin /v1/metrics reads through a recorder, the same reads (/metrics, /health, /v1/metrics, /v1/backends) by a client that is gone - the ResponseWriter's Write fails with EPIPE after 0/1/16/200/1500 body bytes -, MarkBackendUnhealthy, IsBackendHealthy, pool put/get/close/stats, Stop} with scripts derived from VERIF_SEED; one configuration in eight (with breaker, passive checks or limiter on; breaker interval 1 s there) continues after a quiet period of 1.15 s - longer than every configured interval - with a second wave of requests, metrics reads and listings; "+
 		"binary built with -race; oracle: no race report with any frame, no handler panic, no fatal error, every workload returns (20 s no-progress watchdog); every workload is non-trivial (>=3 operation kinds incl. mutating ones); distinct = distinct (configuration, goroutines, ops, seed)")
 	lab.Assume("the race detector decides only the interleavings that were executed (their happens-before class); L2 handler composition replicates cmd/helios/server.go")
 	if lab.Replaying() {
@@ -402,6 +427,7 @@ func TestC12ConcurrentWorkloads(t *testing.T) {
 	for k, n := range overlap {
 		sub.Count("overlapped:"+opKinds[k], int(n))
 	}
+	sub.Count("adds:same-name-and-address-announced-again-with-another-weight", int(atomic.LoadInt64(&reannounced)))
 	if firstViol != "" {
 		lab.Violation(t, "concurrent-workloads", firstCase, "%s", firstViol)
 	}
